@@ -29,6 +29,15 @@ CLAIMS = {
              'construction, GNU/SysV hash position formulas and walk conditions, H-CUR on accessors and walks. Not decided: '
              'hash values (loops over bytes), lookup completeness as a relation over all tables. Trusted: glibc elf.h, '
              'gABI/GNU-hash rows, receiver hints of the call resolution.'),
+    'C04': dict(
+        technique='layout abstract interpretation over 32 configurations x header cases vs DWARF rows + form-table signatures via the '
+                  'layout IR + boundary decision table + dispatch extraction + stream-cursor typestate + sibling agreement',
+        level=LEVEL,
+        note='Decides: unit/abbreviation layouts, initial-length classes, every form parser (presence and width/kind), _parse_DIE '
+             'structure and cursor discipline (size = bytes consumed), value translation table and index widths, child cursor cases, '
+             'unit-relative form sets, reference formulas, unit header wiring, CompileUnit/TypeUnit agreement. Not decided: values '
+             'fetched from other sections; round trip of arbitrary trees. Trusted: DWARF rows in spec/dwarf.py, cursor exceptions '
+             'listed in sa/cursor.py.'),
     'C08': dict(
         technique='layout interpretation vs glibc + r_info split evaluated against registry macros + recipe-table evaluation with '
                   'calc-function normal forms vs psABI rows + path-dominance of the apply-loop guards',
@@ -44,6 +53,20 @@ CLAIMS = {
         note='Decides: Elf_Dyn layout, tag table per machine/OS ABI, iteration order (terminator yielded, n+1), string tags, '
              'string-table selection, constructor wiring of both views, shared accessors (no overrides), symbol access by file '
              'offset, count-recovery order. Not decided: equality of the two views on concrete images. Trusted: glibc elf.h.'),
+    'C12': dict(
+        technique='abstract interpretation of the dispatch-table builder per configuration + operand signatures through the layout IR '
+                  'vs DWARF 5 Table 7.9 rows',
+        level=LEVEL,
+        note='Decides: every named operation has a parser; ordered operand kinds/width/signedness/byte order incl. format and '
+             'address-size dependence, nested and typed blobs, WASM variant table; parse loop structure; one-to-one names. Not decided: '
+             're-encoding round trip on concrete bytes. Trusted: operand rows in spec/dwarf.py, LLVM Dwarf.def for names (C17).'),
+    'C13': dict(
+        technique='layout interpretation + walk-formula normal forms with package-wide sibling agreement + bisect-discipline rules + '
+                  'truth-table comparison of hit conditions',
+        level=LEVEL,
+        note='Decides: set header/entry layouts, next-set formula (same at every unit walk), absolute DIE offsets, preserved order, '
+             'bisect probe/guard/paired insertion, hit conditions of cu_offset_at_addr and get_CU_containing, exact lookup path. Not '
+             'decided: first-tuple padding arithmetic (float ceil), overlapping ranges. Trusted: DWARF rows in spec/dwarf.py.'),
     'C14': dict(
         technique='layout interpretation vs glibc/hand rows + loop-advance symbolic summation (exact-fit and progress rules) + '
                   'dispatch extraction + analyser-evaluated padding agreement',
@@ -58,6 +81,14 @@ CLAIMS = {
         note='Decides: five version struct layouts, walks advance from the current record by its next displacement, auxiliary '
              'start, derived field names exist, names via the linked string table, get_version conditions, versym addressing, link '
              'validation. Not decided: resolved values on concrete sections. Trusted: glibc elf.h.'),
+    'C16': dict(
+        technique='literal-level check of the integer macros + structural loop summaries of the LEB128 decoders + boundary decision '
+                  'table of the initial-length adapter + class-table check of error wrapping',
+        level=LEVEL,
+        note='Decides: width/sign/byte order of the 24 integer macros, exact-length read with FieldError on short input, 24-bit '
+             'recombination, LEB128 loop (one byte per iteration, 7-bit payload, shift 7, continuation on the consumed byte, sign bit 6, '
+             'immediate return), initial-length classes, repeat/prefixed/cstring structure, ConstructError->ELFParseError wrapping. '
+             'Not decided: decoded values of concrete encodings. Trusted: CPython struct, construct core.'),
     'C17': dict(
         technique='constant folding of table modules + exhaustive comparison with vendored registries',
         level=LEVEL,
